@@ -47,6 +47,32 @@ class Universe:
         self.names["Enum"] = 600
         self.base[601] = I.Enum("TypeLayer", "Struct", {"0": I.Enum("StructId", None, {"0": 0})})
         self.names["Struct"] = 601
+        self.base[602] = I.Enum("TypeLayer", "Void")
+        self.names["Void"] = 602
+        # arrays and object types (each parameterised object over float4; the slices / mips objects that indexing
+        # produces are therefore in the universe too)
+        f32, f324 = self.names.get("Float32"), self.names.get("Float324")
+        if f32 and f324:
+            self.base[610] = I.Enum("TypeLayer", "Array", {"0": tid(f32), "1": I.Enum("Option", "Some", {"0": 4})})
+            self.names["Float32[4]"] = 610
+            self.base[611] = I.Enum("TypeLayer", "Array", {"0": tid(601), "1": I.Enum("Option", "None")})
+            self.names["Struct[]"] = 611
+            self.base[612] = I.Enum("TypeLayer", "Array", {"0": tid(f324 + 1000), "1": I.Enum("Option", "Some", {"0": 2})})
+            self.names["const Float324[2]"] = 612
+            objs = None
+            for c in facts.crates.values():
+                for a in c.get("adts", []):
+                    if a["path"].endswith("ir_types::ObjectType"):
+                        objs = a
+            self.objects = []
+            for i, v in enumerate((objs or {}).get("variants", [])):
+                fields = {}
+                for fl in v["fields"]:
+                    fields[fl["name"]] = tid(601 if v["name"] in ("StructuredBuffer", "RWStructuredBuffer", "ConstantBuffer") else f324) \
+                        if fl["ty"].endswith("TypeId") else I.Opaque(fl["ty"])
+                self.base[700 + i] = I.Enum("TypeLayer", "Object", {"0": I.Enum("ObjectType", v["name"], fields)})
+                self.names[v["name"]] = 700 + i
+                self.objects.append(v["name"])
 
     # ids: base + 1000 * modifier index
     def type_id(self, name, mod=0):
@@ -87,6 +113,8 @@ class Universe:
             return tid(b)
         def register_type(a):
             layer = a[1]
+            if isinstance(layer, I.Enum) and layer.variant == "Modifier":
+                return combine_modifier(["register", layer.fields["1"], layer.fields["0"]])
             for b, l in self.base.items():
                 if l == layer:
                     return tid(b)
@@ -97,7 +125,11 @@ class Universe:
             mod = a[2]
             for k, d in MODS.items():
                 if isinstance(mod, I.Enum) and all(bool(mod.fields.get(f_)) == bool(d.get(f_, False)) for f_ in MOD_FIELDS):
-                    return tid(b + 1000 * k)
+                    if m and a[0] != "register":
+                        raise I.Unknown("core::panicking: combine_modifier on a type that already carries a modifier")
+                    if m and k and m != k:
+                        raise I.Unknown("const volatile is outside the model")
+                    return tid(b + 1000 * (k or m))
             raise I.Unknown("modifier outside the model")
         return {"TypeRegistry::register_type": register_type, "TypeRegistry::combine_modifier": combine_modifier,
                 "TypeRegistry::extract_modifier": extract_modifier, "TypeRegistry::get_type_layer": get_type_layer,
